@@ -57,6 +57,7 @@ STR_CLASSES = ["NavigableString", "PreformattedString", "CData", "ProcessingInst
                "RubyParenthesisString", "SubNS", "SubComment"]
 LIST_CLASSES = ["AttributeValueList", "list", "MyAVL"]
 DICT_CLASSES = ["AttributeDict", "HTMLAttributeDict", "XMLAttributeDict", "MyDict"]
+STRVAL_CLASSES = ["str", "CharsetMetaAttributeValue", "ContentMetaAttributeValue", "SubStrVal"]
 
 _E = {}
 
@@ -91,6 +92,10 @@ def E():
           "XMLAttributeDict": el.XMLAttributeDict, "MyDict": mk("MyDict", el.AttributeDict)}
     _E["dcls"] = dc
     _E["dictcode"] = {dc[n]: i for i, n in enumerate(DICT_CLASSES)}
+    sv = {"str": str, "CharsetMetaAttributeValue": el.CharsetMetaAttributeValue,
+          "ContentMetaAttributeValue": el.ContentMetaAttributeValue, "SubStrVal": mk("SubStrVal", str)}
+    _E["svcls"] = sv
+    _E["svcode"] = {sv[n]: i for i, n in enumerate(STRVAL_CLASSES)}
     _E["SubSoup"] = mk("SubSoup", bs4.BeautifulSoup)
     _E["parsercode"] = {bs4.BeautifulSoup: 0, _E["SubSoup"]: 1}
     return _E
@@ -250,9 +255,15 @@ def setting_obj(kind, i):
 
 
 def make_value(vd):
-    """['s', text] | ['l', list class name, [items]]"""
+    """['s', text] | ['l', list class name, [items]] | ['sc', str class name, text] | ['i', int] | ['b', bool] | ['n'] | ['f', float]"""
     if vd[0] == "s":
         return vd[1]
+    if vd[0] == "sc":
+        return E()["svcls"][vd[1]](vd[2])
+    if vd[0] in ("i", "b", "f"):
+        return vd[1]
+    if vd[0] == "n":
+        return None
     return E()["lcls"][vd[1]](vd[2])
 
 
@@ -276,9 +287,13 @@ def make_bare_tag(d):
                       namespaces=setting_obj("nsmap", d.get("nsmap", 0)))
 
 
-def rand_value(r):
+def rand_value(r, scalars=True):
     k = r.random()
-    if k < 0.5:
+    if scalars and k < 0.12:
+        return r.choice([["i", 2], ["i", 0], ["i", -17], ["i", 10 ** 20], ["b", True], ["b", False], ["n"], ["i", 1]])
+    if k < 0.2:
+        return ["sc", r.choice(STRVAL_CLASSES[1:]), r.choice(["utf8", "text/html; charset=latin-1", "", "x y"])]
+    if k < 0.55:
         return ["s", r.choice(["v", "", "a b", "é", "x&y", "<q>"])]
     return ["l", r.choice(LIST_CLASSES), r.choice([[], ["a"], ["a", "b"], ["b", "a"], ["x", "", "y"], ["é"]])]
 
@@ -314,7 +329,10 @@ def rand_bare(r, label):
             if ks in seen:
                 continue
             seen.add(ks)
-            d["attrs"].append([k, rand_value(r)])
+            v = rand_value(r)
+            if not isinstance(k, str) and k[2] is None and v[0] == "b":
+                v = ["s", "v"]   # see apply_op/setattr: the one unsettled value an HTMLAttributeDict produces itself
+            d["attrs"].append([k, v])
     return d
 
 
@@ -384,6 +402,8 @@ def apply_op(root, op, soup=None):
         t = tagnode(ti)
         if t is None or is_soup(t):
             return False
+        if not isinstance(k, str) and k[2] is None and v[0] == "b":
+            return False    # HTMLAttributeDict turns True into key.name = None, a value it would itself refuse (unsettled)
         t[make_key(k)] = make_value(v)
         return True
     if kind == "delattr":
@@ -724,15 +744,34 @@ def val_tok(reg, v):
             raise Unrepresentable("list class / item")
         return f"l:{reg.oid(v)}:{e['listcode'][type(v)]}:" + "|".join(ptok(raw(x)) for x in v)
     if isinstance(v, str):
-        return "s:" + ptok(raw(v))
+        c = e["svcode"].get(type(v))
+        if c is None:
+            raise Unrepresentable("str class of an attribute value")
+        return f"s:{c}:" + ptok(raw(v))
+    if v is None:
+        return "n"
+    if isinstance(v, bool):
+        return "b:1" if v else "b:0"
+    if isinstance(v, int):
+        return f"i:{v}"
     raise Unrepresentable(f"attribute value {type(v).__name__}")
+
+
+def key_tok(k):
+    NA = E()["el"].NamespacedAttribute
+    if type(k) is str:
+        return ptok(k)
+    if type(k) is NA:
+        f = lambda x: "N" if x is None else ptok(x)
+        return f"{ptok(raw(k))}~{f(k.prefix)}~{f(k.name)}~{f(k.namespace)}"
+    raise Unrepresentable("attribute key class")
 
 
 def tag_head(reg, t, nkids=None):
     e = E()
     i = reg.oid(t)
     if t.attrs:
-        att = ";".join(f"{ptok(raw(k))}={val_tok(reg, v)}" for k, v in t.attrs.items())
+        att = ";".join(f"{key_tok(k)}={val_tok(reg, v)}" for k, v in t.attrs.items())
     else:
         att = "-"
     st = ".".join([ob(t.can_be_empty_element), reg.sid(t.cdata_list_attributes), reg.sid(t.preserve_whitespace_tags),
@@ -795,7 +834,7 @@ def shape(n):
             att.append((kk, "list", type(v), [(type(x), x) for x in v]))
         else:
             att.append((kk, "val", type(v), v if not isinstance(v, str) else raw(v)))
-    return ("T", type(n), raw(n.name), n.prefix, n.namespace, att, n.can_be_empty_element, setting_key(n.cdata_list_attributes),
+    return ("T", (type(n), type(n.attrs)), raw(n.name), n.prefix, n.namespace, att, n.can_be_empty_element, setting_key(n.cdata_list_attributes),
             setting_key(n.preserve_whitespace_tags), setting_key(n.interesting_string_types), bool(n.hidden), n.sourceline,
             n.sourcepos, n._is_xml, setting_key(n._namespaces or None), [shape(k) for k in n.contents])
 
@@ -805,7 +844,7 @@ def shape_diff(a, b, path="r"):
     if a[0] != b[0]:
         return f"{path}: kind {a[0]} vs {b[0]}"
     names = (["kind", "class", "text"] if a[0] == "S" else
-             ["kind", "class", "name", "prefix", "namespace", "attrs", "can_be_empty_element", "cdata_list_attributes",
+             ["kind", "class (of the tag, of its attrs dict)", "name", "prefix", "namespace", "attrs", "can_be_empty_element", "cdata_list_attributes",
               "preserve_whitespace_tags", "interesting_string_types", "hidden", "sourceline", "sourcepos", "_is_xml", "_namespaces"])
     for i, nm in enumerate(names):
         if a[i] != b[i]:
@@ -1054,7 +1093,7 @@ def first_diff(a: str, b: str):
 def check_receiver(ctx, batch, recipe, world, el, path, how, stream, tree_id, ri):
     """copy one element: oracle + model. Returns the copy (or None)."""
     case = {"op": "copy", "recipe": recipe, "path": list(path), "how": how}
-    kf = "C12-copy-coerces-nonstring-attr" if nonstr_attr(el) else None
+    kf = None
     kind = "soup" if is_soup(el) else ("tag" if is_tag(el) else "str:" + type(el).__name__)
     ctx.count("receiver:" + kind)
     ctx.count("how:" + how)
@@ -1182,7 +1221,8 @@ def model_edit_line(reg, prep, op):
     """after the real edit: the protocol line (new objects have their identities now)"""
     kind, t = prep["kind"], prep["tag"]
     if kind == "setattr":
-        e = f"setattr {reg.oid(t)} {ptok(raw(prep['key']))} {val_tok(reg, t[prep['key']])}"
+        vin = val_tok(reg, t[prep['key']]) if op[3][0] == "l" else val_tok(reg, make_value(op[3]))
+        e = f"setattr {reg.oid(t)} {key_tok(prep['key'])} {vin}"
     elif kind == "delattr":
         e = f"delattr {reg.oid(t)} {ptok(raw(prep['key']))}"
     elif kind == "list_append":
@@ -1216,7 +1256,7 @@ def check_edit(ctx, batch, recipe, path, how, side, op, stream, tree_id, primed=
         observe(c)
         c == el, el == c, hash(c) == hash(el)
     case = {"op": "edit", "recipe": recipe, "path": list(path), "how": how, "side": side, "edit": op, "primed": primed}
-    kf = "C12-copy-coerces-nonstring-attr" if nonstr_attr(el) else None
+    kf = None
     target, other = (c, world) if side == "copy" else (el, c)
     before = full_dump(other)
     prep = None
@@ -1343,8 +1383,12 @@ def eq_spec(a, b):
         for k, v in t.attrs.items():
             if isinstance(v, list):
                 out.append((raw(k), "l", tuple(raw(x) for x in v)))
-            else:
+            elif isinstance(v, str):
                 out.append((raw(k), "s", (raw(v),)))
+            elif v is None:
+                out.append((raw(k), "none", ()))
+            else:
+                out.append((raw(k), "num", (repr(v + 0),)))    # numbers compare as numbers: True == 1, 2 == 2.0 is not generated
         return sorted(out)
     if raw(a.name) != raw(b.name) or amap(a) != amap(b) or len(a.contents) != len(b.contents):
         return False
@@ -1702,8 +1746,9 @@ def stream_small(ctx, batch, max_nodes):
 
 
 def stream_nonstring(ctx):
-    """known finding: raw non-string attribute values are coerced / dropped by the copy's HTMLAttributeDict"""
-    for v in (2, 1.5, True, False, None, 0):
+    """repaired defect C12-copy-coerces-nonstring-attr: raw non-string attribute values of a parsed tag (plain AttributeDict)
+    were coerced / dropped by the copy's HTMLAttributeDict"""
+    for v in (2, 1.5, True, False, None, 0, -3, 10 ** 30, float("inf")):
         recipe = {"markup": '<a id="1">x</a>', "config": "default", "ops": []}
         soup = build(recipe)
         soup.a["k"] = v
@@ -1714,7 +1759,7 @@ def stream_nonstring(ctx):
             ctx.violation("copy of a tag holding a non-string attribute value differs from the original",
                           case={"op": "nonstring", "value": repr(v)}, expected=f"== and {soup.a.decode()}",
                           observed=f"=={c == soup.a} and {c.decode()}", stream="nonstring-attr",
-                          kf="C12-copy-coerces-nonstring-attr" if nonstr_attr(soup.a) else None)
+                          kf=None)
 
 
 def stream_settings(ctx):
